@@ -38,6 +38,8 @@ def C01(tier):
     else:
         c.notes.append("native (-march=native) configuration skipped: cpu lacks avx2+avx512vl+f16c")
     c.compare_digests(runs, "encoded bytes of every value")
+    # every 32-bit value through the uint32_t entry points (all 2^32 in the thorough tier, 2^26 in the quick tier)
+    c.spec("scalar-all32-rel", "rel", "drv_scalar", "c01x32", 1, params=[sz(tier, 26, 32)])
     # the two documented configuration knobs of the split-full families, each alone (asymmetric builds)
     for knob in ("VARINT_SPLIT_FULL_USE_MAXIMUM_RANGE", "VARINT_SPLIT_FULL_NO_ZERO_USE_MAXIMUM_RANGE"):
         kw = dict(extra_cflags=("-D" + knob,))
@@ -58,6 +60,7 @@ def C01(tier):
         c.require("align.%d" % a, c.stat("align.%d" % a), 1000)
     c.require("signed_negative_cases", c.stat("c01_signed_negative_cases"), 10000)
     c.require("constant_argument_checks", c.stat("c01_constant_argument_checks"), 100)
+    c.require("exhaustive_32bit_values", c.stat("c01_exhaustive_32bit_values"), 1 << sz(tier, 26, 32))
     c.assumptions = ["x86-64 little-endian host; the big-endian host branch of varintExternal*.c is not executable here",
                      "fixed widths exercised are the legal ones: external any width >= minimal; tagged minimal, or >= 4 and >= minimal"]
     c.finish(c.stat("cases"), c.extra["per_cfg"].get("distinct_cases@rel", 0),
